@@ -312,11 +312,14 @@ def absLocus (l : Locus) : SLocus :=
 
 def optSub (k : String) (v : Str) : List (Str × Str) := if v ≠ [] then [(k.toList, v)] else []
 
-/-- references are numbered by position, from `i + 1` -/
+/-- the number of the reference at position `i`: its own `Index` when set, else the position -/
+def refNum (i : Nat) (r : Reference) : Str := if r.index = [] then Location.itoa (i + 1) else r.index
+
+/-- a reference carries its own number when it has one, else its position (from `i + 1`) -/
 def absRefs : Nat → List Reference → List SBlock
   | _, [] => []
   | i, r :: rs =>
-    { key := "REFERENCE".toList, num := Location.itoa (i + 1), text := r.range,
+    { key := "REFERENCE".toList, num := refNum i r, text := r.range,
       subs := optSub "AUTHORS" r.authors ++ optSub "TITLE" r.title ++ optSub "JOURNAL" r.journal
               ++ optSub "PUBMED" r.pubMed ++ optSub "REMARK" r.remark } :: absRefs (i + 1) rs
 
@@ -376,7 +379,7 @@ def wfLocus (l : Locus) : Bool :=
 
 def wfRef (r : Reference) : Bool :=
   singleSpaced r.range && singleSpaced r.authors && singleSpaced r.title && singleSpaced r.journal
-    && singleSpaced r.pubMed && singleSpaced r.remark
+    && singleSpaced r.pubMed && singleSpaced r.remark && (r.index == [] || isWord r.index)
 
 /-- `maxKey` columns for the keyword of an extra block -/
 def wfOther (maxKey : Nat) (kv : Str × Str) : Bool :=
@@ -507,13 +510,12 @@ def seqEquiv (x y : Sequence) : Bool :=
 
 /-! ### the domains the JUDGE uses
 
-The theorems keep `wfLayout` / `wfSeq`.  The judge admits more, because three classes of records that
+The theorems keep `wfLayout` / `wfSeq`.  The judge admits more, because two classes of records that
 the property's quantifier contains are KNOWN FINDINGS (they fail, are tagged, and are not hidden):
 
 * `C03-blank-run-at-wrap`: metadata with runs of blanks (the parser's image has them) — `textJ`
   instead of `singleSpaced`;
 * `C03-nameless-locus`: a record assembled without a locus name;
-* `C03-reference-number`: a `Reference.Index` that is not the position (unset, or renumbered).
 
 Still excluded, with the reason (the flat-file layout has no place for the datum, or poly never reads it):
 a blank at either END of a metadata value (the keyword line cannot delimit it; the parser's
@@ -535,6 +537,7 @@ def wfLocusJ (l : Locus) : Bool :=
 
 def wfRefJ (r : Reference) : Bool :=
   textJ r.range && textJ r.authors && textJ r.title && textJ r.journal && textJ r.pubMed && textJ r.remark
+    && (r.index == [] || isWord r.index)
 
 def wfOtherJ (maxKey : Nat) (kv : Str × Str) : Bool :=
   isWord kv.1 && (match kv.1 with | c :: _ => isLetter c | [] => false) && kv.1.length ≤ maxKey
@@ -560,20 +563,20 @@ def wfSeqJ (x : Sequence) : Bool :=
 /-- what is read back from a wrapped block holding `t` -/
 def readBack (t : Str) : Str := textOf (lines (StrBuild.wrapString t 68))
 
-/-- the range read back from the REFERENCE line number `i + 1` -/
-def readBackRange (i : Nat) (range : Str) : Str :=
-  (mkBlock "REFERENCE".toList (readBack (Location.itoa (i + 1) ++ "  ".toList ++ range)) []).text
+/-- the range read back from the REFERENCE line with number `num` -/
+def readBackRange (num range : Str) : Str :=
+  (mkBlock "REFERENCE".toList (readBack (num ++ "  ".toList ++ range)) []).text
 
 def lossyRefs : Nat → List Reference → List Reference
   | _, [] => []
   | i, r :: rs =>
-    { r with index := Location.itoa (i + 1), range := readBackRange i r.range, authors := readBack r.authors,
+    { r with index := refNum i r, range := readBackRange (refNum i r) r.range, authors := readBack r.authors,
              title := readBack r.title, journal := readBack r.journal, pubMed := readBack r.pubMed,
              remark := readBack r.remark } :: lossyRefs (i + 1) rs
 
-/-- the record that the three known findings predict to come back: blank runs at wrap points
-become one blank, references are numbered by position, and the LOCUS line of a name-less record is
-read one token to the left -/
+/-- the record that the two known findings predict to come back: blank runs at wrap points become
+one blank and the LOCUS line of a name-less record is read one token to the left; besides, an UNSET
+`Reference.Index` comes back as the position (be39eee: preserved when set, defaulted when not) -/
 def expectedBack (x : Sequence) : Sequence :=
   let m := x.metadata
   let l := m.locus
@@ -602,8 +605,12 @@ def clsBlankRun (x : Sequence) : Bool :=
 /-- class C03-nameless-locus -/
 def clsNameless (x : Sequence) : Bool := x.metadata.locus.name == []
 
-/-- class C03-reference-number -/
-def clsRefNumber (x : Sequence) : Bool := !wfRefIndex 0 x.metadata.references
+/-- an unset `Reference.Index` is defaulted to the position; everything else as given -/
+def withDefaultIndex (x : Sequence) : Sequence :=
+  let rec go : Nat → List Reference → List Reference
+    | _, [] => []
+    | i, r :: rs => { r with index := refNum i r } :: go (i + 1) rs
+  { x with metadata := { x.metadata with references := go 0 x.metadata.references } }
 
 /-- `SequenceCoding` is compared when the record says `bp` and has a length (`Build` writes the
 constant ` bp`, the parser reads the unit only next to a number); any other unit is outside the
